@@ -505,4 +505,206 @@ theorem obs_remove {sl sl' : SkipList} (h : Inv sl) (h' : Inv sl') (e : obs sl =
   · rw [remove_old, remove_old]
     simp only [getScore, ei]
 
+/-! ### One storage call per command: `zadd_many`, `zrem_many`, `zpop` -/
+
+theorem zaddMany_refines : ∀ (vs : List (Score × Bytes)) (hs : List Nat) (k : ZKey) (n : Nat), KeyInv k →
+    KeyInv (Code.zaddMany hs vs k n).1 ∧
+    absKey (Code.zaddMany hs vs k n).1 = Spec.zaddAll vs (absKey k) ∧
+    (Code.zaddMany hs vs k n).2 = n + ((Spec.zaddAll vs (absKey k)).length - (absKey k).length)
+  | [], hs, k, n, hk => by simp [Code.zaddMany, Spec.zaddAll, hk]
+  | (s, m) :: vs, hs, k, n, hk => by
+    have hz := zadd_refines hk (hs.headD 0) m s
+    have hw := wf_absKey hk
+    have ih := zaddMany_refines vs hs.tail (Code.zadd (hs.headD 0) m (.num s) k).1
+      (if (Code.zadd (hs.headD 0) m (.num s) k).2 = true then n + 1 else n) hz.1
+    unfold Code.zaddMany
+    refine ⟨ih.1, ?_, ?_⟩
+    · rw [ih.2.1, hz.2.1]; rfl
+    · rw [ih.2.2, hz.2.1, hz.2.2]
+      have hge := Spec.length_zaddAll_ge vs (Spec.wf_zadd hw m s)
+      have hl := Spec.length_zadd hw m s
+      have e : Spec.zaddAll ((s, m) :: vs) (absKey k) = Spec.zaddAll vs (Spec.zadd m s (absKey k)) := rfl
+      rw [e]
+      cases hsc : (Spec.zscore m (absKey k)).isNone <;> simp only [hsc, Bool.false_eq_true, if_false, if_true] at hl ⊢ <;>
+        omega
+
+theorem Spec.zremAll_nil (ms : List Bytes) : Spec.zremAll ms [] = [] := by
+  induction ms with
+  | nil => rfl
+  | cons m ms ih => simpa [Spec.zremAll, Spec.zrem] using ih
+
+theorem Spec.wf_zremAll : ∀ (ms : List Bytes) {z : Spec.ZSet}, Spec.WF z → Spec.WF (Spec.zremAll ms z)
+  | [], _, h => h
+  | m :: ms, _, h => by
+    unfold Spec.zremAll
+    rw [List.foldl_cons]
+    exact Spec.wf_zremAll ms (Spec.wf_zrem h m)
+
+theorem Spec.length_zremAll_le : ∀ (ms : List Bytes) (z : Spec.ZSet), (Spec.zremAll ms z).length ≤ z.length
+  | [], _ => Nat.le_refl _
+  | m :: ms, z => by
+    unfold Spec.zremAll
+    rw [List.foldl_cons]
+    have h1 := Spec.length_zremAll_le ms (Spec.zrem m z)
+    have h2 : (Spec.zrem m z).length ≤ z.length := List.length_filter_le _ _
+    unfold Spec.zremAll at h1
+    omega
+
+theorem zremMany_refines : ∀ (ms : List Bytes) (k : ZKey) (n : Nat), KeyInv k →
+    KeyInv (Code.zremMany ms k n).1 ∧
+    absKey (Code.zremMany ms k n).1 = Spec.zremAll ms (absKey k) ∧
+    (Code.zremMany ms k n).2 = n + ((absKey k).length - (Spec.zremAll ms (absKey k)).length)
+  | [], k, n, hk => by simp [Code.zremMany, Spec.zremAll, hk]
+  | m :: ms, none, n, _ => by
+    simp [Code.zremMany, absKey, Spec.zremAll_nil, keyInv_none]
+  | m :: ms, some sl, n, hk => by
+    have hz := zrem_refines hk m
+    have hw := wf_absKey hk
+    have ih := zremMany_refines ms (Code.zrem m (some sl)).1
+      (if (Code.zrem m (some sl)).2 = true then n + 1 else n) hz.1
+    unfold Code.zremMany
+    refine ⟨ih.1, ?_, ?_⟩
+    · rw [ih.2.1, hz.2.1]; rfl
+    · rw [ih.2.2, hz.2.1, hz.2.2]
+      have hle := Spec.length_zremAll_le ms (Spec.zrem m (absKey (some sl)))
+      have hl := Spec.length_zrem hw m
+      have e : Spec.zremAll (m :: ms) (absKey (some sl)) = Spec.zremAll ms (Spec.zrem m (absKey (some sl))) := rfl
+      rw [e]
+      cases hsc : (Spec.zscore m (absKey (some sl))).isSome
+      · simp only [hsc, Bool.false_eq_true, if_false] at hl ⊢
+        omega
+      · have hpos : 0 < (absKey (some sl)).length := by
+          cases hz' : Spec.zscore m (absKey (some sl)) with
+          | none => simp [hz'] at hsc
+          | some s0 => exact List.length_pos_of_mem (Spec.zscore_some_mem hz')
+        simp only [hsc, if_true] at hl ⊢
+        omega
+
+/-- One iteration of `zpop` is one pop of the prescribed order. -/
+theorem zpopStep_refines {k : ZKey} (hk : KeyInv k) (max : Bool) :
+    match (if max then Spec.zpopmax (absKey k) else Spec.zpopmin (absKey k)) with
+    | none => Code.zpopStep max k = none
+    | some (e, r) => ∃ k', Code.zpopStep max k = some (lift e, k') ∧ absKey k' = r ∧ KeyInv k' := by
+  cases k with
+  | none => cases max <;> simp [Code.zpopStep, absKey, Spec.zpopmin, Spec.zpopmax]
+  | some sl =>
+    have h := (hk sl rfl).1
+    have hne := (hk sl rfl).2
+    have hl0 := level0_eq_lift_abs h
+    have hlen := abs_length h
+    have hw := abs_wf h
+    have hpos : 0 < sl.length := by
+      rw [h.len]; exact List.length_pos_iff.mpr hne
+    have hz : (sl.length == 0) = false := by simp; omega
+    -- after removing a member of the set: exactly the key `zrem` leaves
+    have hrem : ∀ e : Entry, e ∈ abs sl →
+        (if (remove e.2 sl).1.length == 0 then none else some (remove e.2 sl).1) = (Code.zrem e.2 (some sl)).1 := by
+      intro e he
+      have : (remove e.2 sl).2.isSome = true := by
+        rw [remove_old, getScore_refines h, (Spec.zscore_eq_some hw).mpr he]; rfl
+      simp [Code.zrem, this]
+    simp only [absKey]
+    cases max with
+    | false =>
+      simp only [Bool.false_eq_true, if_false]
+      cases ha : abs sl with
+      | nil => rw [hl0, ha] at hne; exact absurd rfl hne
+      | cons e r =>
+        have hr : rangeByRank 0 0 sl = [lift e] := by
+          unfold rangeByRank
+          have : ¬ (0 ≥ sl.length) := by omega
+          have h1 : min (0 + 1) sl.length - 0 = 1 := by omega
+          simp [this, h1, hl0, ha]
+        have hzr := zrem_refines hk e.2
+        refine ⟨(Code.zrem e.2 (some sl)).1, ?_, ?_, hzr.1⟩
+        · simp only [Code.zpopStep, hz, Bool.false_eq_true, if_false, hr, List.head?_cons]
+          rw [← hrem e (by rw [ha]; exact List.mem_cons_self)]
+          rfl
+        · refine hzr.2.1.trans ?_
+          simp only [absKey, ha]
+          exact zrem_head (ha ▸ hw)
+    | true =>
+      simp only [if_true]
+      unfold Spec.zpopmax
+      cases hlast : (abs sl).getLast? with
+      | none =>
+        have : abs sl = [] := List.getLast?_eq_none_iff.mp hlast
+        rw [hl0, this] at hne; exact absurd rfl hne
+      | some e =>
+        obtain ⟨ys, hys⟩ := List.getLast?_eq_some_iff.mp hlast
+        have hyl : ys.length = sl.length - 1 := by rw [← hlen, hys]; simp
+        have hr : rangeByRank (sl.length - 1) (sl.length - 1) sl = [lift e] := by
+          unfold rangeByRank
+          have : ¬ (sl.length - 1 ≥ sl.length) := by omega
+          have h1 : min (sl.length - 1 + 1) sl.length - (sl.length - 1) = 1 := by omega
+          simp only [this, if_false, h1, hl0, hys, List.map_append, List.map_cons, List.map_nil]
+          rw [← hyl, ← List.length_map (f := lift), List.drop_left]
+          rfl
+        have hzr := zrem_refines hk e.2
+        refine ⟨(Code.zrem e.2 (some sl)).1, ?_, ?_, hzr.1⟩
+        · simp only [Code.zpopStep, hz, Bool.false_eq_true, if_false, if_true, hr, List.head?_cons]
+          rw [← hrem e (by rw [hys]; simp)]
+          rfl
+        · refine hzr.2.1.trans ?_
+          simp only [absKey, hys, List.dropLast_concat]
+          exact zrem_last (hys ▸ hw)
+
+theorem Spec.zpopN_min_cons (n : Nat) (e : Entry) (r : Spec.ZSet) :
+    Spec.zpopN false (n + 1) (e :: r) = ((Spec.zpopN false n r).1, e :: (Spec.zpopN false n r).2) := by
+  simp [Spec.zpopN]
+
+theorem Spec.zpopN_max_snoc (n : Nat) (e : Entry) (r : Spec.ZSet) :
+    Spec.zpopN true (n + 1) (r ++ [e]) = ((Spec.zpopN true n r).1, e :: (Spec.zpopN true n r).2) := by
+  simp only [Spec.zpopN, if_true, List.length_append, List.length_cons, List.length_nil]
+  have h1 : r.length + (0 + 1) - (n + 1) = r.length - n := by omega
+  rw [h1, List.take_append_of_le_length (by omega), List.drop_append_of_le_length (by omega)]
+  simp
+
+/-- `zpop(key, count, min)` pops the first / last `count` entries of the prescribed order, in pop order. -/
+theorem zpopMany_refines (max : Bool) : ∀ (n : Nat) (k : ZKey) (acc : List CEntry), KeyInv k →
+    KeyInv (Code.zpopMany max n k acc).1 ∧
+    absKey (Code.zpopMany max n k acc).1 = (Spec.zpopN max n (absKey k)).1 ∧
+    (Code.zpopMany max n k acc).2 = acc ++ ((Spec.zpopN max n (absKey k)).2).map lift
+  | 0, k, acc, hk => by
+    cases max <;> simp [Code.zpopMany, Spec.zpopN, hk]
+  | n + 1, k, acc, hk => by
+    have hs := zpopStep_refines hk max
+    unfold Code.zpopMany
+    cases max with
+    | false =>
+      simp only [Bool.false_eq_true, if_false] at hs
+      cases hz : absKey k with
+      | nil =>
+        simp only [hz, Spec.zpopmin] at hs
+        rw [hs]
+        simp [Spec.zpopN, hk, hz]
+      | cons e r =>
+        simp only [hz, Spec.zpopmin] at hs
+        obtain ⟨k', hk1, hk2, hk3⟩ := hs
+        rw [hk1]
+        have ih := zpopMany_refines false n k' (acc ++ [lift e]) hk3
+        simp only
+        rw [Spec.zpopN_min_cons, ← hk2]
+        refine ⟨ih.1, ih.2.1, ?_⟩
+        rw [ih.2.2]; simp
+    | true =>
+      simp only [if_true] at hs
+      cases hl : (absKey k).getLast? with
+      | none =>
+        have hz : absKey k = [] := List.getLast?_eq_none_iff.mp hl
+        simp only [Spec.zpopmax, hl] at hs
+        rw [hs]
+        simp [Spec.zpopN, hk, hz]
+      | some e =>
+        obtain ⟨ys, hys⟩ := List.getLast?_eq_some_iff.mp hl
+        simp only [Spec.zpopmax, hl] at hs
+        obtain ⟨k', hk1, hk2, hk3⟩ := hs
+        rw [hk1]
+        have ih := zpopMany_refines true n k' (acc ++ [lift e]) hk3
+        simp only
+        rw [hys, List.dropLast_concat] at hk2
+        rw [hys, Spec.zpopN_max_snoc, ← hk2]
+        refine ⟨ih.1, ih.2.1, ?_⟩
+        rw [ih.2.2]; simp
+
 end Ferrous.ZSet
